@@ -532,22 +532,45 @@ out:
 
 /* ---- R4: correlated-parameter sigma grids --------------------------- */
 
-static void run_r4(int n, int spacing, int fn, vf_result *r)
+static void run_r4(int n, int spacing, int fn, int ov, vf_result *r)
 {
     double gf[8], sv[8];
     vnacal_t *vcp;
     char sig[120];
 
     vf_desc(r, "R4 correlated parameter sigma grid of %d points (spacing "
-	    "%d), sigma %s in f", n, spacing, fn ? "linear" : "constant");
+	    "%d), sigma %s in f, %s", n, spacing, fn ? "linear" : "constant",
+	    ov == 0 ? "correlated with SHORT" : ov == 1 ? "correlated with "
+	    "a vector parameter of the same length and span on another grid" :
+	    "NULL sigma grid: borrowed from the vector parameter (through an "
+	    "unknown parameter)");
     make_knots(n, spacing, gf);
+    vf_errlog_reset(&elog);
+    vcp = vnacal_create((vnaerr_error_fn_t *)vf_errfn, &elog);
+    int other = VNACAL_SHORT;
+    const double *sgrid = gf;
+    if (ov != 0) {
+	double vf[8];
+	double complex vg[8];
+	make_knots(n, ov == 1 ? (spacing + 1) % NSPACING : spacing, vf);
+	for (int i = 0; i < n; ++i)
+	    vg[i] = gen(3, vf[i]);
+	int hv = vnacal_make_vector_parameter(vcp, vf, n, vg);
+	other = ov == 2 ? vnacal_make_unknown_parameter(vcp, hv) : hv;
+	if (hv < 0 || other < 0) {
+	    vf_fail(r, "r4:make", "vector/unknown parameter: %s",
+		    elog.count ? elog.msg[0] : "");
+	    goto out;
+	}
+	if (ov == 2)
+	    sgrid = NULL;
+    }
     for (int i = 0; i < n; ++i) {
 	double x = (gf[i] - 1e9) / 1e9;
 	sv[i] = 0.01 * (1.0 + (fn ? 0.6 * x : 0.0));
     }
-    vf_errlog_reset(&elog);
-    vcp = vnacal_create((vnaerr_error_fn_t *)vf_errfn, &elog);
-    int h = vnacal_make_correlated_parameter(vcp, VNACAL_SHORT, gf, n, sv);
+    int h = vnacal_make_correlated_parameter(vcp, other,
+	    n == 1 ? NULL : sgrid, n, sv);
     ++r->transitions;
     if (h < 0) {
 	vf_fail(r, "r4:make", "vnacal_make_correlated_parameter failed: %s",
@@ -596,7 +619,7 @@ out:
 #define N_R1 (5 * 3 * 3 * 2)
 static int n_r2(int tier) { return 8 * 2 * (tier ? 3 : 1); }
 #define N_R3 (NGRIDN * NSPACING * 2 * 2 * 4)
-#define N_R4 (NGRIDN * NSPACING * 2)
+#define N_R4 (NGRIDN * NSPACING * 2 * 3)
 /* 4 is also the number of calibration frequencies of R3: a grid of the
    same length and span that is still a different grid */
 static const int grid_n[NGRIDN] = { 1, 2, 3, 4, 5, 7 };
@@ -630,9 +653,10 @@ static void run(int tier, long idx, vf_result *r)
 	run_r3(grid_n[idx], sp, fn, which, miss, r);
     } else {
 	idx -= N_R3;
+	int ov = vf_digit(&idx, 3);
 	int fn = vf_digit(&idx, 2);
 	int sp = vf_digit(&idx, NSPACING);
-	run_r4(grid_n[idx], sp, fn, r);
+	run_r4(grid_n[idx], sp, fn, ov, r);
     }
     vf_exec_end(r, mark);
 }
